@@ -58,6 +58,10 @@ def make_groups(kind, d):
         return [[d - 1]]
     if kind == "empty":
         return []
+    if kind == "duplicate":
+        return [[0, 0]]
+    if kind == "out-of-range":
+        return [[d]]
     raise ValueError(kind)
 
 
@@ -72,6 +76,8 @@ def make_mask(kind, d):
         return np.ones(d, dtype=int)
     if kind == "none":
         m[:] = False
+    if kind == "too-long":
+        return np.ones(d + 1, dtype=bool)
     return m
 
 
@@ -194,7 +200,7 @@ def param_options(name, pname, n, d, notes=None):
         elif c is list:
             vals += [v for v in UNCONSTRAINED["groups"] if v is not None]
         elif c is np.ndarray:
-            vals += [{"mask": "all"}, {"mask": "drop-first"}, {"mask": "only-last"}, {"mask": "int-ones"}, {"mask": "none"}]
+            vals += [{"mask": "all"}, {"mask": "drop-first"}, {"mask": "only-last"}, {"mask": "int-ones"}]
         elif isinstance(c, type) and issubclass(c, _GEMINI):
             vals += gem_tokens()
         elif c is dict:
@@ -279,10 +285,11 @@ def make_spec(name, overrides, data=None, **dkw):
         ds["kind"] = "nonneg" if ds["kind"] != "dups" else "nonneg-dups"
     if used & TWO_FEATURE_METRICS and not ds.get("violate"):
         ds["d"] = 2
-    ds["n"] = max(ds["n"], min_rows(name, params))
+    if not ds.get("small_n"):
+        ds["n"] = max(ds["n"], min_rows(name, params))
     if is_wasserstein(name, params):
         ds["n"] = min(ds["n"], 8)
-        if ds["n"] < min_rows(name, params):
+        if ds["n"] < min_rows(name, params) and not ds.get("small_n"):
             return None
     return {"est": name, "params": params, "data": ds}
 
@@ -298,8 +305,8 @@ def make_data(ds):
         if "nonneg" in kind:
             X = np.abs(X)
         return X
-    X, Xt = draw(n), draw(n + 2)
-    return X, Xt
+    X, Xt, Xs = draw(n), draw(n + 2), draw(n)
+    return X, Xt, Xs
 
 
 def affinity_kind(est):
@@ -323,13 +330,13 @@ def precomputed(kind, X):
 
 def materialise(spec):
     name, ds = spec["est"], spec["data"]
-    X, Xt = make_data(ds)
+    X, Xt, Xs = make_data(ds)
     d = ds["d"]
     kw = {k: resolve(v, d) for k, v in spec["params"].items()}
     est = impl.ALL_ESTIMATORS[name](**kw)
     ak = affinity_kind(est)
-    y, yt = precomputed(ak, X), precomputed(ak, Xt)
-    return est, X, y, Xt, yt
+    y, yt, ys = precomputed(ak, X), precomputed(ak, Xt), precomputed(ak, Xs)
+    return est, X, y, (Xt, yt), (Xs, ys)
 
 
 FAMILY = {"LinearModel": "lin", "LinearMMD": "lin", "LinearWasserstein": "lin", "RIM": "lin", "SparseLinearModel": "lin",
@@ -398,9 +405,9 @@ def run_spec(spec):
     signal.alarm(TIMEOUT)
     try:
         name = spec["est"]
-        est, X, y, Xt, yt = materialise(spec)
-        Xin = X.tolist() if spec["data"].get("as_list") else X
-        Xtin = Xt.tolist() if spec["data"].get("as_list") else Xt
+        est, X, y, (Xt, yt), (Xs, ys) = materialise(spec)
+        as_list = spec["data"].get("as_list")
+        Xin, Xtin, Xsin = [(a.tolist() if as_list else a) for a in (X, Xt, Xs)]
         kauri = name == "Kauri"
         stage = "validate"
         try:
@@ -426,7 +433,8 @@ def run_spec(spec):
             obs["opt_module"] = type(est.optimiser_).__module__
             obs["opt_lr"] = float(est.optimiser_.learning_rate_init)
         inductive = name not in impl.NONPARAMETRIC
-        for tag, Xi, Xa, yy in (("", Xin, X, y), ("_t", Xtin, Xt, yt)):
+        # training data, new data with n+2 rows, new data with exactly n rows (a stale training affinity would fit its shape)
+        for tag, Xi, Xa, yy in (("", Xin, X, y), ("_t", Xtin, Xt, yt), ("_s", Xsin, Xs, ys)):
             if tag == "_t" and not inductive:
                 continue
             with quiet():
@@ -466,7 +474,7 @@ def run_spec(spec):
             raise
         tb = traceback.extract_tb(e.__traceback__)
         files = [f.filename for f in tb]
-        out["exc"] = {"stage": stage, "type": type(e).__name__, "msg": str(e)[:300],
+        out["exc"] = {"stage": stage, "type": type(e).__name__, "msg": str(e)[:300], "is_value_error": isinstance(e, ValueError),
                       "where": [f"{os.path.basename(f.filename)}:{f.lineno}:{f.name}" for f in tb[-4:]],
                       "in_metric": any("/sklearn/metrics/" in f for f in files[-4:]),
                       "in_repo": any("/gemclus/" in f for f in files)}
@@ -519,11 +527,11 @@ def oracle(spec, res, counters=None):
         lr = params.get("learning_rate", None)
         if lr is not None and o["opt_lr"] != float(lr):
             bad.append(("optimiser-lr", f"optimiser_ learning rate {o['opt_lr']} but learning_rate={lr}"))
-    for tag, m in (("", n), ("_t", n + 2)):
+    for tag, m in (("", n), ("_t", n + 2), ("_s", n)):
         if "pred" + tag not in o:
             continue
         pred = o["pred" + tag]
-        where = "training data" if tag == "" else "new data"
+        where = {"": "training data", "_t": "new data (n+2 rows)", "_s": "new data (n rows)"}[tag]
         if pred.shape != (m,) or pred.dtype.kind not in "iu" or pred.min() < 0 or pred.max() >= K:
             bad.append(("predict-range", f"predict on {where}: shape {pred.shape} dtype {pred.dtype} values outside [0, {K})"))
         if not kauri:
@@ -574,7 +582,7 @@ def correspond(chk, spec, res):
         bad.append(("model-n_iter", f"n_iter_={o['n_iter']}, model {m_iter} (epochs {m_epochs})"))
     if {"sgd": "SGDOptimizer", "adam": "AdamOptimizer"}[m_opt] != o["opt"] or not m_acc:
         bad.append(("model-optimiser", f"optimiser_={o['opt']}, model {m_opt} (accepted={m_acc}) for solver {params.get('solver', 'adam')!r}"))
-    for tag in ("", "_t"):
+    for tag in ("", "_t", "_s"):
         if "P" + tag not in o:
             continue
         P, pred = o["P" + tag], o["pred" + tag]
@@ -847,6 +855,26 @@ def specs_precondition(chk):
     return out
 
 
+def specs_rejection(chk):
+    """regression cases: configurations the estimator's own validation must reject with a ValueError-family error
+    (they are outside the accepted set of C04; a TypeError / IndexError / silent fit instead is a failure)"""
+    out = []
+
+    def add(name, ov, why, **data):
+        sp = make_spec(name, ov, data=dict({"seed": 11}, **data))
+        sp["focus"] = "rejection:" + why
+        out.append(sp)
+    add("Douglas", {"feature_mask": {"mask": "none"}}, "feature_mask selects no feature")
+    add("Douglas", {"feature_mask": {"mask": "too-long"}}, "feature_mask of the wrong length")
+    add("Kauri", {"min_samples_leaf": 3, "min_samples_split": 4}, "2*min_samples_leaf > min_samples_split")
+    for name in impl.SPARSE:
+        add(name, {"groups": {"groups": "duplicate"}}, "duplicate index in groups")
+        add(name, {"groups": {"groups": "out-of-range"}}, "group index out of range")
+    for name in impl.GRADIENT_ESTIMATORS:
+        add(name, {"n_clusters": 4}, "fewer samples than n_clusters", n=3, small_n=True)
+    return out
+
+
 # ---------------------------------------------------------------------------------------------- per-case evaluation
 class State:
     def __init__(self):
@@ -856,12 +884,23 @@ class State:
         self.excluded = collections.defaultdict(list)
         self.rejected = []
         self.minimised = {}
+        self.groups = {}
 
 
 def evaluate(chk, st, spec, res, stream):
     name = spec["est"]
     replay = {"spec": spec}
     chk.dist["est:" + name] += 1
+    if stream == "rejection":
+        e = res["exc"]
+        if res["rejected"] or (e is not None and e["stage"] == "fit" and e["is_value_error"]):
+            chk.dist["rejected-cleanly"] += 1
+            chk.count(("rejection", name, spec["focus"]))
+        else:
+            got = "no error at all" if e is None else f"{e['type']} in {e['stage']}: {e['msg']}"
+            chk.fail(f"{name}:{spec['focus']}:not-a-clean-rejection", f"expected a ValueError from the estimator's own validation, got {got}", replay, layer="L3")
+            chk.count(None)
+        return
     if res["rejected"]:
         # every value comes from the estimator's own constraint: a rejection is contradictory unless cross-parameter
         st.rejected.append({"spec": spec, "message": res["rejected"]})
@@ -875,21 +914,23 @@ def evaluate(chk, st, spec, res, stream):
         chk.count(None)
         return
     bad = oracle(spec, res, st.counters)
-    if bad:
-        checks = [c for c, _ in bad]
-        sig = (name, tuple(checks), json.dumps(spec["params"], sort_keys=True, default=str))
-        mspec = spec
-        if len(st.minimised) < 60:
-            try:
-                mspec = minimise(dict(spec, _msg=res["exc"]["msg"] if res["exc"] else None), checks)
-                mspec.pop("_msg", None)
-            except Exception:
-                mspec = spec
-        for c, what in bad[:3]:
-            key = failure_key(mspec, c)
-            chk.fail(key, what + f"  [minimal configuration: {json.dumps({'est': name, 'params': mspec['params'], 'data': mspec['data']}, default=str)}]",
-                     {"spec": mspec, "original_spec": spec}, layer="L3")
-            st.minimised[key] = mspec
+    for c, what in bad[:3]:
+        # failures are grouped by (estimator, check, exception text): the first of a group is reduced towards the
+        # base configuration and names the group; later members are counted under the same key
+        sig = (name, c, res["exc"]["msg"][:40] if res["exc"] else "")
+        if sig not in st.groups:
+            mspec = spec
+            if len(st.groups) < 40:
+                try:
+                    mspec = minimise(dict(spec, _msg=res["exc"]["msg"] if res["exc"] else None), [c])
+                    mspec.pop("_msg", None)
+                except Exception:
+                    mspec = spec
+            st.groups[sig] = (failure_key(mspec, c), mspec)
+        key, mspec = st.groups[sig]
+        chk.fail(key, what + f"  [reduced configuration of this failure group: {json.dumps({'est': name, 'params': mspec['params'], 'data': mspec['data']}, default=str)}]",
+                 {"spec": spec, "reduced_spec": mspec}, layer="L3")
+        st.minimised[key] = mspec
     if res["exc"] is None:
         l2 = []
         try:
@@ -947,11 +988,16 @@ def stream_softmax(chk, i, rng):
         chk.fail("softmax:model-mismatch", f"softmax differs from the model by {np.abs(row - ref).max():.3e}", replay)
     if am != int(np.argmax(z)) or vm != z.max():
         chk.fail("argmax:model-mismatch", f"argmax/max of {z.tolist()}: numpy {int(np.argmax(z))}/{z.max()}, model {am}/{vm}", replay)
-    # the theorems, on the float instance
-    if not (np.all(row > 0) or scale >= 700.0) or abs(s - 1) > TOL or not (0 <= am < K) or np.any(z > z[am]) or np.any(z[:am] >= z[am]):
+    # the theorems, on the float instance (exp underflows to exactly 0 only at the largest scale)
+    positive = bool(np.all(row > 0)) or scale >= 700.0
+    first_max = 0 <= am < K and not np.any(z > z[am]) and not np.any(z[:am] >= z[am])
+    if not positive or abs(s - 1) > TOL or np.any(row > 1) or not first_max:
         chk.fail("softmax:theorem-on-floats", f"simplex / first-maximiser statement fails on floats: row={row.tolist()} sum={s} argmax={am}", replay, layer="L3")
-    if np.any(ref < 0) or abs(ref.sum() - 1) > TOL or int(np.argmax(ref)) != int(np.argmax(row)) and np.sort(row)[-1] - (np.sort(row)[-2] if K > 1 else 0) > TOL:
-        chk.fail("softmax:impl", "scikit-learn softmax row is not a probability vector / disagrees on the arg-max", replay, layer="L3")
+    # the implementation's softmax is a probability vector and orders the clusters like the model's
+    srt = np.sort(row)
+    clear = K == 1 or srt[-1] - srt[-2] > TOL
+    if np.any(ref < 0) or abs(ref.sum() - 1) > TOL or (clear and int(np.argmax(ref)) != amp):
+        chk.fail("softmax:impl", "scikit-learn softmax row is not a probability vector / disagrees with the model on the arg-max", replay, layer="L3")
     chk.dist[f"softmax:scale={scale}"] += 1
     chk.count(("softmax", K, scale, mode) if K >= 2 else None)
 
@@ -967,31 +1013,39 @@ def main():
     quick = chk.tier == "quick"
     if chk.replay_path:
         rp = json.load(open(chk.replay_path))
+        chk.seed = rp.get("seed", chk.seed)
         spec = rp["input"].get("spec")
         if spec is not None:
-            plan = [("replay", [spec])]
+            plan = [("replay", [dict(spec, stream=rp["input"].get("stream", "replay"))])]
         else:
             plan = []
             chk.run_stream("softmax", stream_softmax, 1, only=rp["input"].get("case", 0))
     else:
         widen = 3 if chk.l1_broken else 1
-        plan = [("ofat", specs_ofat(chk, notes, reps=(2 if quick else 6) * widen)),
-                ("data", specs_data(chk, sample=(1200 * widen if quick else None))),
-                ("pairs", specs_pairs(chk, (500 if quick else 4000) * widen, notes)),
+        plan = [("ofat", specs_ofat(chk, notes, reps=(1 if quick else 6) * widen)),
+                ("data", specs_data(chk, sample=(800 * widen if quick else None))),
+                ("pairs", specs_pairs(chk, (300 if quick else 4000) * widen, notes)),
                 ("precondition", specs_precondition(chk)),
-                ("grid", specs_grid(chk, notes, sample=(600 * widen if quick else None)))]
+                ("rejection", specs_rejection(chk)),
+                ("grid", specs_grid(chk, notes, sample=(400 * widen if quick else None)))]
         chk.run_stream("softmax", stream_softmax, 300 if quick else 5000)
     sizes = {}
+    CHUNK = 3000                      # results carry small arrays: evaluate and drop them chunk by chunk
     for stream, specs in plan:
         sizes[stream] = len(specs)
-        t0 = time.time()
-        results = run_all(specs, procs)
+        t_fit = t_eval = 0.0
+        for start in range(0, len(specs), CHUNK):
+            part = specs[start:start + CHUNK]
+            t0 = time.time()
+            results = run_all(part, procs)
+            t1 = time.time()
 
-        def case(chk_, i, rng, specs=specs, results=results, stream=stream):
-            evaluate(chk_, st, specs[i], results[i], stream)
-        t1 = time.time()
-        chk.run_stream(stream, case, len(specs))
-        chk.notes.append(f"stream {stream}: {len(specs)} configurations, fits {t1 - t0:.1f}s, evaluation (L3 + model) {time.time() - t1:.1f}s")
+            def case(chk_, i, rng, part=part, results=results, stream=stream):
+                evaluate(chk_, st, part[i], results[i], part[i].get("stream", stream))
+            chk.run_stream(stream, case, len(part))
+            t_fit += t1 - t0
+            t_eval += time.time() - t1
+        chk.notes.append(f"stream {stream}: {len(specs)} configurations, fits {t_fit:.1f}s on {procs} processes, evaluation (L3 + model) {t_eval:.1f}s")
     # every enumerated option value must have been fitted at least once per estimator (self-check of the covering sample)
     if not chk.replay_path:
         for name in impl.ALL_ESTIMATORS:
